@@ -24,6 +24,9 @@ func checkC10(c *Ctx) {
 		}
 		for i := range a {
 			a[i] = strings.ReplaceAll(a[i], "nE", "né")
+			// decimal digits outside ASCII: part of identifiers and numbers like any other digit
+			a[i] = strings.ReplaceAll(a[i], "xD3", "F_\u0663")
+			a[i] = strings.ReplaceAll(a[i], "D12", "\uff11\uff12")
 		}
 		args = append(args, a)
 	}
